@@ -12,6 +12,7 @@
 import ZanVerif.Engine.Ref
 import ZanVerif.Data.Header
 import ZanVerif.Data.KVExec
+import ZanVerif.Gen.HIncr
 
 namespace Z.HashTTLExec
 abbrev Bytes := List UInt8
@@ -19,7 +20,7 @@ abbrev KV := Bytes × Bytes
 open Z.Ref (get put del scan)
 open Z.Codec (be64 toU64 ofU64 fromBE)
 open Z.Header
-open Z.KVExec (KErr Reply errOf eerr tooBig stripTs RdRes)
+open Z.KVExec (KErr Reply errOf eerr tooBig stripTs RdRes PRes parseInt fmtInt wrap64)
 
 def metaK (table k : Bytes) : Bytes := Z.Codec.metaKey Gen.cHSizeType (Z.Codec.packRedisKey table k)
 def fieldK (table k : Bytes) (ver : Int) (f : Bytes) : Bytes :=
@@ -66,9 +67,8 @@ def dedupPairs : List (Bytes × Bytes) → List (Bytes × Bytes)
     | some (_, v') => (f, v') :: rest.filter (·.1 != f)
     | none => (f, v) :: rest
 
-/-- HSET / HSETNX (`hSetField`) -/
-def hset (m : List KV) (ts : Int) (nx : Bool) (table k f v : Bytes) : List KV × Reply :=
-  if tooBig v then (m, .err .valuelen) else
+/-- `hSetField` (HSET / HSETNX / HINCRBY write through it; the value-size check belongs to `HSet`) -/
+def hsetField (m : List KV) (ts : Int) (nx : Bool) (table k f v : Bytes) : List KV × Reply :=
   match mview m ts table k with
   | .bad e => (m, .err (errOf e))
   | .mv h ex =>
@@ -78,6 +78,48 @@ def hset (m : List KV) (ts : Int) (nx : Bool) (table k f v : Bytes) : List KV ×
     match get m ek with
     | some old => if nx || old == value then (m, .int 0) else (put m ek value, .int 0)
     | none => (put (hIncrSize m table k h' 1).1 ek value, .int 1)
+
+/-- HSET / HSETNX (`HSet`: `checkValueSize`, then `hSetField`) -/
+def hset (m : List KV) (ts : Int) (nx : Bool) (table k f v : Bytes) : List KV × Reply :=
+  if tooBig v then (m, .err .valuelen) else hsetField m ts nx table k f v
+
+/-- what `HIncrBy` reads — `hGetRawFieldValue(ts, key, field, checkExpired = true)`: a hash that is absent or EXPIRED AT
+    THE LOG TIME has no fields; otherwise the field key of the generation the size meta names -/
+def hincrCur (m : List KV) (h : Hdr) (ex : Bool) (table k f : Bytes) : Option Bytes :=
+  if Gen.hincrFieldMissing ex h.user.isNone then none else get m (fieldK table k h.ver f)
+
+/-- the part of `HIncrBy` after the read: `StrInt64` of the old value without its 8-byte modification time (missing = 0;
+    an error returns at once), `n += delta` in int64, `hSetField` of the decimal text, reply n -/
+def hincrFinish (m : List KV) (ts : Int) (table k f : Bytes) (d : Int) (cur : Option Bytes) : List KV × Reply :=
+  let curN : PRes := match cur with
+    | none => .ok 0
+    | some fv => parseInt (stripTs fv)
+  match curN with
+  | .syntax => (m, .err .notint)
+  | .range => (m, .err .numrange)
+  | .ok c =>
+    let n := wrap64 (c + d)
+    match hsetField m ts Gen.hincrCheckNX table k f (fmtInt n) with
+    | (m', .err e) => (m', .err e)
+    | (m', _) => (m', .int n)
+
+/-- HINCRBY (`RockDB.HIncrBy`): the old value without its 8-byte modification time is parsed with
+    strconv.ParseInt(·, 10, 64) (missing field / dead hash = 0; ErrSyntax → notint, ErrRange → numrange, nothing
+    written); `n += delta` in int64 (NO overflow check: wraps); the decimal text goes through `hSetField` — a dead hash
+    starts a new generation (version = log timestamp, no expiry), a new field bumps the size meta, an existing one keeps
+    it (and with it generation and expiry); reply = n -/
+def hincrby (m : List KV) (ts : Int) (table k f : Bytes) (d : Int) : List KV × Reply :=
+  match mview m ts table k with
+  | .bad e => (m, .err (errOf e))
+  | .mv h ex => hincrFinish m ts table k f d (hincrCur m h ex table k f)
+
+/-- the apply handler `localHIncrbyCommand`: the increment text is parsed first (ParseInt(·, 10, 64)); its error is
+    answered before the store is looked at -/
+def hincrbyCmd (m : List KV) (ts : Int) (table k f dtxt : Bytes) : List KV × Reply :=
+  match parseInt dtxt with
+  | .syntax => (m, .err .notint)
+  | .range => (m, .err .numrange)
+  | .ok d => hincrby m ts table k f d
 
 /-- HMSET -/
 def hmset (m : List KV) (ts : Int) (table k : Bytes) (pairs : List (Bytes × Bytes)) : List KV × Reply :=
